@@ -12,7 +12,7 @@ ANTI = {"electron": "positron", "positron": "electron", "neutrino": "antineutrin
 
 def base_case(rng, quick):
     th, ob = wlayer.rand_ew(rng)
-    pto = rng.choice([0, 1, 1, 2] if quick else [0, 1, 2, 2, 3])
+    pto = rng.choice([0, 1, 1, 2] if quick is True else ([2, 3, 3] if quick == "wide" else [0, 1, 2, 2, 3]))
     th.update(FNS="ZM-VFNS", PTO=pto, PTODIS=pto, RenScaleVar=rng.random() < 0.5, FactScaleVar=rng.random() < 0.5,
               kcThr=rng.choice([1.0, 0.5]), kbThr=1.0, ktThr=1.0)
     ob["NCPositivityCharge"] = None
@@ -76,10 +76,10 @@ def describe(rel):
     return dict(relation=n, observable=name, x=x, Q2=Q2, theoryA=tA, obsA=oA, theoryB=tB, obsB=oB, sign=s)
 
 
-def patrol(chk, n):
+def patrol(chk, n, wide=False):
     dist, bad, crashed = {}, [], {}
     for _ in range(n):
-        for rel in rel_cases(chk.rng, chk.tier == "quick"):
+        for rel in rel_cases(chk.rng, "wide" if wide else chk.tier == "quick"):
             dist[rel[0]] = dist.get(rel[0], 0) + 1
             try:
                 r = run_rel(rel)
@@ -88,7 +88,7 @@ def patrol(chk, n):
                 continue
             if r is not None:
                 bad.append((rel, r))
-    chk.patrol["run_pairs"] = dict(cases=sum(dist.values()), failures=len(bad), distribution=dist, crashed_not_counted=crashed,
+    chk.patrol["run_pairs_n3lo" if wide else "run_pairs"] = dict(cases=sum(dist.values()), failures=len(bad), distribution=dist, crashed_not_counted=crashed,
                                    rule="pairs of real runs (ZM-VFNS, PTO 0..3, scale variations on/off), every order key and all 14 rows compared: "
                                         "e+(P) vs e-(-P); NC with MZ=2^40 vs EM; CC beam vs anti-beam on conjugated rows (F3 sign); rows of equal-charge quarks")
     for rel, r in bad[:3]:
@@ -107,7 +107,7 @@ def run(chk):
     chk.oblige("correspondence combiner, ZM-VFNS (model = Combiner.collect_elems)", not bad2, str(bad2[:1]))
     patrol(chk, 12 if quick else 120)
     if chk.red() and not chk.violations:
-        patrol(chk, 100)
+        patrol(chk, 60, wide=True)      # N3LO included (the fl11 flavour class only exists there)
     if chk.red() and not chk.violations:
         chk.violation("unproved", "a theorem or correspondence of C13 no longer checks: %s" % [o[0] for o in chk.red()],
                       dict(red=[(o[0], o[2]) for o in chk.red()], disagreements=(bad + bad2)[:3]), found_input=False)
